@@ -11,9 +11,14 @@
 (* An archive is a sequence of entries [name, kind, target] with Goodbye   *)
 (* markers closing directories.  Unpack is the decoder + disk writer as    *)
 (* coded, with the entry-name validation (ValidName) that the repaired     *)
-(* code performs; Dev_NoValidation switches it off (the behaviour before   *)
-(* the repair, finding F9).  TLC checks Confined for every archive of a    *)
-(* bounded number of entries over a hostile name alphabet.                 *)
+(* code performs.  Validate = "full" is the repaired code: entry names are  *)
+(* single components (finding F9) and every named entry lies in an open    *)
+(* directory, only the first entry -- the root -- is nameless (finding      *)
+(* F22: a root entry that is a symlink, with named entries after it, made  *)
+(* the destination itself a link to the outside).  "names" is the code     *)
+(* between the two repairs, "none" the code as found.  TLC checks Confined *)
+(* for every archive of a bounded number of entries over a hostile name    *)
+(* alphabet, every kind of root entry, destination present or absent.      *)
 (***************************************************************************)
 EXTENDS Integers, Sequences, FiniteSets, TLC
 
@@ -64,28 +69,37 @@ CreateLeaf(fs, rel, kind, target) ==     \* file, symlink or device: remove what
   ELSE LET base == [q \in {x \in DOMAIN fs : ~(IsPrefix(p, x) /\ x # p)} |-> fs[q]]                       \* RemoveAll for files
        IN [ok |-> TRUE, fs |-> [q \in (DOMAIN base) \cup {p} |-> IF q = p THEN [k |-> kind, t |-> target] ELSE base[q]]]
 
-\* ---- the archive decoder: dir is the current directory (relative), entries are consumed left to right
-RECURSIVE Unpack(_, _, _, _)
-Unpack(fs, dir, arch, touched) ==
+\* ---- the archive decoder: dir is the current directory (relative), depth the number of directories that are open,
+\* entries are consumed left to right
+RECURSIVE Unpack(_, _, _, _, _)
+Unpack(fs, dir, depth, arch, touched) ==
   IF arch = <<>> THEN [ok |-> TRUE, fs |-> fs, touched |-> touched]
   ELSE LET e == Head(arch) IN
-       IF e.kind = "goodbye" THEN Unpack(fs, IF dir = <<>> THEN <<>> ELSE SubSeq(dir, 1, Len(dir) - 1), Tail(arch), touched)
-       ELSE IF Validate /\ ~ValidName(e.name) THEN [ok |-> FALSE, fs |-> fs, touched |-> touched]
+       IF e.kind = "goodbye" THEN Unpack(fs, IF dir = <<>> THEN <<>> ELSE SubSeq(dir, 1, Len(dir) - 1), IF depth > 0 THEN depth - 1 ELSE 0, Tail(arch), touched)
+       ELSE IF Validate # "none" /\ ~ValidName(e.name) THEN [ok |-> FALSE, fs |-> fs, touched |-> touched]
+       ELSE IF Validate = "full" /\ depth = 0 THEN [ok |-> FALSE, fs |-> fs, touched |-> touched]     \* a named entry outside of any directory
        ELSE LET rel == Join(dir, e.name)
                 r == IF e.kind = "dir" THEN CreateDir(fs, rel) ELSE CreateLeaf(fs, rel, IF e.kind = "link" THEN "link" ELSE "file", e.target)
                 t2 == IF r.ok THEN touched \cup {Real(fs, Abs(rel))} ELSE touched
             IN IF ~r.ok THEN [ok |-> FALSE, fs |-> r.fs, touched |-> t2]
-               ELSE Unpack(r.fs, IF e.kind = "dir" THEN rel ELSE dir, Tail(arch), t2)
+               ELSE Unpack(r.fs, IF e.kind = "dir" THEN rel ELSE dir, IF e.kind = "dir" THEN depth + 1 ELSE depth, Tail(arch), t2)
+\* the first entry of an archive has no name: it describes the destination itself
+UnpackRoot(fs, root, arch) ==
+  LET r == IF root.kind = "dir" THEN CreateDir(fs, <<>>) ELSE CreateLeaf(fs, <<>>, IF root.kind = "link" THEN "link" ELSE "file", root.target) IN
+  IF ~r.ok THEN [ok |-> FALSE, fs |-> r.fs, touched |-> {}]
+  ELSE Unpack(r.fs, <<>>, IF root.kind = "dir" THEN 1 ELSE 0, arch, {<<"dst">>})
 
 \* ---- the property: everything created, replaced or modified lies beneath the destination
 Confined(res) == \A p \in res.touched : Inside(p)
 
-FS0 == (<<"dst">> :> [k |-> "dir", t |-> <<>>]) @@ (<<"out">> :> [k |-> "dir", t |-> <<>>]) @@ (<<"out", "secret">> :> [k |-> "file", t |-> <<>>])
+Outside0 == (<<"out">> :> [k |-> "dir", t |-> <<>>]) @@ (<<"out", "secret">> :> [k |-> "file", t |-> <<>>])
+FS0(absent) == IF absent THEN Outside0 ELSE (<<"dst">> :> [k |-> "dir", t |-> <<>>]) @@ Outside0
 Targets == { <<"out">>, <<"dst">> }
 Entries == [name : Names, kind : {"dir", "file"}, target : {<<>>}] \cup [name : Names, kind : {"link"}, target : Targets]
            \cup {[name |-> <<>>, kind |-> "goodbye", target |-> <<>>]}
+Roots == [kind : {"dir", "file"}, target : {<<>>}] \cup [kind : {"link"}, target : Targets]
 Archives == UNION {[1..n -> Entries] : n \in 0..MaxEntries}
-ASSUME \A a \in Archives : Confined(Unpack(FS0, <<>>, a, {}))
+ASSUME \A a \in Archives : \A root \in Roots : \A absent \in BOOLEAN : Confined(UnpackRoot(FS0(absent), root, a))
 VARIABLE x
 Spec == x = 0 /\ [][UNCHANGED x]_x
 =============================================================================
